@@ -339,4 +339,4 @@ def unit():
     flavors = Mod('ctr_flavors', 'ctr/src/flavors.rs', items=[
         Sel('trait CtrFlavor', members=TRAIT_MEMBERS, fns=trait_fns())])
     mods = [flavors, flavor_mod(32, 4, 'u32'), flavor_mod(64, 8, 'u64'), flavor_mod(128, 16, 'u128'), core_mod()]
-    return Unit('ctr', prelude=K.PRELUDE_BLOCK, spec=['steps.rs', 'ctr.rs'], mods=mods)
+    return Unit('ctr', prelude=K.PRELUDE_BLOCK, spec=['steps.rs', 'ctr.rs'], mods=K.DEPS() + mods)
